@@ -20,7 +20,13 @@ TRICKY_STR = ['', 'a', 'abc', 'true', 'yes', 'null', '1', '1.5', '1e5', '~',
               'line1\nline2', 'tab\tx', '\u00e9\u00e8', '\u4e2d\u6587',
               '\U0001f600', 'q"q', "q'q", 'back\\slash', '2001-02-03', '0x1F',
               '*star', '&amp', '!bang', '%pct', '@at', '`tick', '\u2028ls',
-              '\x85nel', '\ufeffbom', 'C:\\dir', 'a' * 70]
+              '\x85nel', '\ufeffbom', 'C:\\dir', 'a' * 70,
+              # scalars longer than one 4096/8192 read block, and than the emitter's line width
+              'x' * 5000, '\u00e9' * 4100, 'word ' * 1700]
+
+
+YAML11_STR_WORDS = ['yes', 'no', 'on', 'off', 'Yes', 'No', 'ON', 'Off', 'YES', '1_000.5', '1:30.5',
+                    '6:0.0', '1_0.0e+1']
 
 
 def _scalar_default(t):
@@ -229,7 +235,14 @@ def values(draw, spec, t, depth=2):
             return {'k': 'int', 'v': draw(st.one_of(
                 st.integers(-100, 100), st.integers(-10 ** 12, 10 ** 12)))}
         if t == 'str':
+            if draw(st.integers(0, 7)) == 0:
+                # plain scalars that PyYAML's YAML 1.1 resolvers read as bool or float
+                # and yatiml's patched resolvers read as strings
+                return {'k': 'str', 'plain': True, 'v': draw(st.sampled_from(YAML11_STR_WORDS))}
             return {'k': 'str', 'v': draw(strs())}
+        if t == 'float' and draw(st.integers(0, 7)) == 0:
+            sp = draw(st.sampled_from(['1e5', '1E3', '-2e-2', '+6e+2', '12e03']))
+            return {'k': 'float', 'v': repr(float(sp)), 'sp': sp}
         if t == 'float':
             f = draw(st.one_of(
                 st.sampled_from([0.0, 1.5, -2.25, 1e20, 1e-7, float('inf'), float('-inf'), float('nan')]),
